@@ -574,7 +574,9 @@ class Circuit:
         group will be ignored.
         """
         # Convert circuit spec and then assign to attribute
-        new_spec = compress_mode_swaps(deepcopy(self.__circuit_spec))
+        # Components are copied as required by the function, so any Parameters
+        # remain those assigned by the user
+        new_spec = compress_mode_swaps(self.__circuit_spec)
         self.__circuit_spec = new_spec
 
     def remove_non_adjacent_bs(self) -> None:
@@ -583,8 +585,9 @@ class Circuit:
         with a mode swap and adjacent beam splitters.
         """
         # Convert circuit spec and then assign to attribute
-        spec = deepcopy(self.__circuit_spec)
-        new_spec = convert_non_adj_beamsplitters(spec)
+        # Components are copied as required by the function, so any Parameters
+        # remain those assigned by the user
+        new_spec = convert_non_adj_beamsplitters(self.__circuit_spec)
         self.__circuit_spec = new_spec
 
     def _build(self) -> CompiledCircuit:
